@@ -215,6 +215,8 @@ def run_inner(pid, tier, seed):
         bad = [(r["cfg"], r["violated"]) for r in mc if r["violated"]]
         if bad:
             raise common.ToolError(f"the model itself violates {bad}: the specification needs attention (not a verdict about the code)")
+        # temporal liveness of the design (spec/HQLive.tla) for the two properties that speak about progress
+        live = hq_model.liveness_check(tier)[0] if pid in ("C02", "C08") else None
         dbg("model checking done")
         reg = regress_shard(work)
         if reg:
@@ -271,7 +273,8 @@ def run_inner(pid, tier, seed):
             "mc": {"formulas_of_this_property": mc_formulas(pid),
                    "runs": [{k: r.get(k) for k in ("instance", "mode", "cfg", "distinct_states", "states_generated", "depth", "completed", "time_bounded", "cached", "constants", "cmd")} for r in mc],
                    "distinct_states_total": sum(r["distinct_states"] for r in mc),
-                   "exhaustive_within_constants": all(r["completed"] for r in mc), "time_bounded_instances": [r["instance"] for r in mc if r.get("time_bounded")]},
+                   "exhaustive_within_constants": all(r["completed"] for r in mc), "time_bounded_instances": [r["instance"] for r in mc if r.get("time_bounded")],
+                   **({"temporal_liveness": {"module": "HQLive.tla", "runs": live, "refuted_without_fairness": True}} if live else {})},
             "checker_cmd": "tlc -workers 1 -config HQConform.cfg HQConform.tla (TRACE=<shard>) per shard; tlc -workers 8 -config MC_HQ_<inst>_<mode>.cfg MC_HQ.tla",
             "explanation": "states/transitions = states of real executions on which TLC evaluated every property formula "
                            "(trace validation); model-checking numbers of the design model are reported under 'mc' when present",
